@@ -1106,8 +1106,14 @@ pub fn main(args: &Args) -> i32 {
         }
         std::thread::sleep(std::time::Duration::from_millis(3));
     }
-    // confirm suspects alone before believing them
+    // confirm suspects alone before believing them (the lowest few: each stalled one costs the backstop)
     let fx = Fixtures::load();
+    suspects.sort();
+    let unconfirmed = suspects.len().saturating_sub(MAX_SUSPECTS);
+    suspects.truncate(MAX_SUSPECTS);
+    if unconfirmed > 0 {
+        println!("note: {unconfirmed} further runs were in flight when their workers ended; only the lowest {MAX_SUSPECTS} are re-run alone");
+    }
     for (idx, how) in suspects {
         let run_seed = rng::mix(base_seed, rng::domain(PROP), idx);
         let c = gen_case(&mut Rng::new(run_seed), &fx);
